@@ -65,7 +65,9 @@ def interesting_keys(tier, rng):
 
 
 VALUES = [b"v", b"", b"\r\n", b"END\r\n", b"a\r\nset x 0 0 1\r\ny\r\n", b"VALUE k 0 1\r\nx\r\nEND\r\n", b"\x00\xff" * 10,
-          b"x" * 5000, "text", "héllo", 12345, -7, 10 ** 30, b" noreply", "1 noreply"]
+          b"x" * 5000, "text", "héllo", 12345, -7, 10 ** 30, b" noreply", "1 noreply",
+          # 'other' values go on the wire as their str() text (the length announced is the length of that text)
+          bytearray(b"ba"), memoryview(b"mview"), memoryview(__import__("array").array("d", [1.0, 2.0])), 2.5, None, (1, 2)]
 EXPIRES = [0, 1, -1, 2 ** 31 - 1, 2 ** 31 + 1, 2 ** 63 - 1, -(2 ** 63), 2592001]
 BAD_INTS = [None, 1.5, "1", b"1", "1 noreply", [1]]
 FLAGS = [None, 0, 1, 2 ** 16, 2 ** 32 - 1]
